@@ -1,7 +1,7 @@
 (* C01 — malformed input never crashes, hangs or wedges the proxy (decoder part).
    Only statements; proofs live in Codec/*Proofs.v. *)
 From Mos Require Import Base.Prelude Codec.Name Codec.Msg Codec.NameProofs Codec.SafetyProofs Codec.WfProofs
-  Router.Rules Router.Edns Router.Router Router.RouterProofs.
+  Router.Rules Router.Edns Router.Router Router.RouterProofs Net.DohGet Net.DohGetProofs.
 
 (* Name decoding terminates for EVERY octet list and offset — pointer loops included — within a
    concrete fuel bound, and never indexes out of range (safe = not Panic and not OutOfFuel). *)
@@ -44,6 +44,75 @@ Proof.
 Qed.
 Print Assumptions C01_handler_total.
 
+(* ---- the `dns` parameter of a DoH GET request (Net/DohGet.v) ----
+   The octets handed to the DNS decoder are EXACTLY what base64url decoding of the parameter yields: nothing is added
+   (the handlers allocate DecodedLen(len(text)) octets, the decoder may fill fewer: it skips CR / LF), a parameter that
+   is no base64url text is rejected (400).  Together with C01_decode_safe: every byte string presented as a GET
+   parameter is either rejected or decoded as the message its sender encoded - never completed with other octets. *)
+Theorem C01_doh_get_exact : forall k raw m,
+  doh_get k raw = DohMsg m ->
+  b64_decode (doh_value k raw) = Some m /\ length m <= b64_decoded_len (length (doh_value k raw)).
+Proof.
+  intros k raw m H. unfold doh_get in H. destruct (doh_value k raw) as [|c v] eqn:V; [discriminate|].
+  destruct (65535 <? _)%N; [discriminate|]. destruct (b64_decode (c :: v)) as [m'|] eqn:D; [|discriminate].
+  inversion H; subst. split; [reflexivity|]. now apply b64_decode_fits.
+Qed.
+Print Assumptions C01_doh_get_exact.
+
+(* every message of 1..65535 octets reaches the decoder unchanged through the net/http listener (raw value) ... *)
+Theorem C01_doh_get_roundtrip : forall m, byte_list m -> m <> [] -> (N.of_nat (length m) <= 65535)%N ->
+  doh_get DohNetHttp (b64_text m) = DohMsg m.
+Proof.
+  intros m B Hne L. unfold doh_get, doh_value.
+  destruct (b64_text m) as [|c t] eqn:T.
+  - exfalso. pose proof (b64_text_length m B) as E. rewrite T in E. cbn in E. destruct m; [now apply Hne|unfold b64_decoded_len in E; cbn in E; discriminate].
+  - rewrite <- T. rewrite (b64_text_length m B).
+    destruct (65535 <? N.of_nat (length m))%N eqn:C; [apply N.ltb_lt in C; lia|].
+    rewrite (b64_roundtrip m B). reflexivity.
+Qed.
+Print Assumptions C01_doh_get_roundtrip.
+
+(* ... and through the fasthttp listener (percent-decoded value) even with k percent-encoded line breaks behind it:
+   the decoder skips them, the message is m itself - although the buffer is longer (defect D24: the whole buffer,
+   i.e. m followed by stale octets of earlier requests, was parsed) *)
+Theorem C01_doh_get_fasthttp_linebreaks : forall m k, byte_list m -> m <> [] ->
+  (N.of_nat (b64_decoded_len (length (b64_text m) + k)) <= 65535)%N ->
+  doh_get DohFastHttp (b64_text m ++ concat (repeat pct_lf k)) = DohMsg m.
+Proof.
+  intros m k B Hne L. unfold doh_get, doh_value.
+  pose proof (b64_enc_sextets (length m) m (le_n _) B) as S.
+  assert (pct_decode (b64_text m ++ concat (repeat pct_lf k)) = b64_text m ++ repeat 10%N k) as P
+    by (unfold b64_text; apply (pct_decode_text_lfs _ k S)).
+  rewrite P. remember (b64_text m ++ repeat 10%N k) as v eqn:V.
+  assert (length v = length (b64_text m) + k) as Lv by (subst v; rewrite app_length, repeat_length; reflexivity).
+  assert (b64_decode v = Some m) as D by (subst v; apply (b64_decode_text_lfs m k B)).
+  destruct v as [|c t].
+  - exfalso. symmetry in V. apply app_eq_nil in V. destruct V as [T _]. pose proof (b64_text_length m B) as E. rewrite T in E.
+    destruct m; [now apply Hne|unfold b64_decoded_len in E; cbn in E; discriminate].
+  - rewrite Lv. destruct (65535 <? _)%N eqn:C; [apply N.ltb_lt in C; lia|]. rewrite D. reflexivity.
+Qed.
+Print Assumptions C01_doh_get_fasthttp_linebreaks.
+
+(* line breaks anywhere in the text are invisible to the decoder *)
+Theorem C01_doh_get_breaks_invisible : forall t1 t2 brk,
+  forallb is_break brk = true -> b64_decode (t1 ++ brk ++ t2) = b64_decode (t1 ++ t2).
+Proof. exact b64_decode_breaks. Qed.
+Print Assumptions C01_doh_get_breaks_invisible.
+
+(* the handler before the fix of D24: a query whose last two octets are missing, followed by four "%0A": the buffer
+   holds three octets more than were decoded, the stale ones complete the query (class IN = 0,1 from the previous
+   request) and the decoder ACCEPTS it; the handler as it is now hands over the cut query, which is rejected *)
+Theorem C01_doh_get_pinned_refuted :
+  exists stale raw m m',
+    doh_get DohFastHttp raw = DohMsg m /\ is_ok (unpack_msg m) = false /\
+    doh_get_pinned stale raw = DohMsg m' /\ m' <> m /\ is_ok (unpack_msg m') = true.
+Proof.
+  exists [0; 1; 7]%N, (b64_text [0;1;1;0;0;1;0;0;0;0;0;0; 1;97;0; 0;1]%N ++ concat (repeat pct_lf 4)),
+         [0;1;1;0;0;1;0;0;0;0;0;0; 1;97;0; 0;1]%N, [0;1;1;0;0;1;0;0;0;0;0;0; 1;97;0; 0;1; 0;1;7]%N.
+  vm_compute. repeat split; try reflexivity. discriminate.
+Qed.
+Print Assumptions C01_doh_get_pinned_refuted.
+
 (* non-vacuity: a compression-pointer loop is rejected (not looped on); a valid query is accepted *)
 Example C01_example_loop :
   unpack_msg [0;1;1;0;0;1;0;0;0;0;0;0; 192;12; 0;1;0;1]%N = Err ETooManyPtr.
@@ -51,3 +120,9 @@ Proof. vm_compute. reflexivity. Qed.
 Example C01_example_ok :
   is_ok (unpack_msg [0;1;1;0;0;1;0;0;0;0;0;0; 1;97;0; 0;1;0;1]%N) = true.
 Proof. vm_compute. reflexivity. Qed.
+Example C01_example_doh_get :
+  doh_get DohNetHttp (b64_text [0;1;1;0;0;1;0;0;0;0;0;0; 1;97;0; 0;1;0;1]%N) = DohMsg [0;1;1;0;0;1;0;0;0;0;0;0; 1;97;0; 0;1;0;1]%N /\
+  doh_get DohNetHttp [65; 37; 48; 65]%N = DohReject /\            (* "A%0A" raw: '%' is no base64url character *)
+  doh_get DohFastHttp [65; 66; 37; 48; 65]%N = DohMsg [0]%N /\     (* "AB%0A" percent-decoded: "AB" + LF *)
+  doh_get DohFastHttp [65]%N = DohReject /\ doh_get DohFastHttp [65; 66; 61]%N = DohReject.   (* 1 character; padding *)
+Proof. vm_compute. auto. Qed.
